@@ -662,7 +662,8 @@ impl<R: RefCounter, PR: PathRefCounter, H: Header> Memory<R, PR, H> {
           freelist,
           read_only: false,
           max_retries: opts.maximum_retries(),
-          lock_meta: opts.lock_meta(),
+          // in the plain layout the header does not live in the mapping: there is nothing to lock
+          lock_meta: opts.lock_meta() && unify,
         };
 
         if this.lock_meta {
